@@ -597,16 +597,22 @@ theorem assignFld_rel {fuel ld : Nat} {σ : Store} {s f : String} {e : Expr} {in
     split at hT
     · rename_i tn fields hag
       have hσa : σ.aggs.lookup s = some (.str tn fields) := by rw [hσ.aggs]; exact hag
-      have hslot := aggOK_fld hσ.ctx hag hT
-      obtain ⟨v0, hv0, _⟩ := hσ.vars _ _ hslot
-      rcases value_rel Γ hσ hs with ⟨v, e1, e2, e3⟩ | ⟨st, g, e1, e2, e3⟩
-      · obtain ⟨w1, w2, w3⟩ := hσ.write hslot e3
-        simp only [e1, e2, hσa, hT, writeSlot, hv0, writeVal_real]
-        refine ⟨w1, ?_, w3, ?_⟩
-        · simp [w2, ← sinsert_erase]
-        · simp [FlowOK]
-      · simp only [e1, e2]
-        exact ⟨hσ, rfl, rfl, e3⟩
+      cases hf : findFld fields f with
+      | none => simp [hf] at hT
+      | some q =>
+        obtain ⟨g0, t0⟩ := q
+        simp [hf] at hT
+        subst hT
+        have hslot := aggOK_fld hσ.ctx hag hf
+        obtain ⟨v0, hv0, _⟩ := hσ.vars _ _ hslot
+        rcases value_rel Γ hσ hs with ⟨v, e1, e2, e3⟩ | ⟨st, g, e1, e2, e3⟩
+        · obtain ⟨w1, w2, w3⟩ := hσ.write hslot e3
+          simp only [e1, e2, hσa, hag, hf, writeSlot, hv0, writeVal_real]
+          refine ⟨w1, ?_, w3, ?_⟩
+          · simp [w2, ← sinsert_erase]
+          · simp [FlowOK]
+        · simp only [e1, e2]
+          exact ⟨hσ, rfl, rfl, e3⟩
     · simp at hT
 
 theorem assignIdx_rel {fuel ld : Nat} {σ : Store} {a : String} {i e : Expr} {inLoop : Bool}
